@@ -110,6 +110,7 @@ def cases() -> Any:
         "is_async": st.booleans(),
         # parameter names p0, p1, ... or names the library itself uses for its own arguments / locals on the way to the call
         "naming": st.sampled_from(["p", "p", "internal"]),
+        "late_register": st.sampled_from([False, False, True]),
         "shadow": st.sampled_from([False, False, True]),
     })
 
@@ -259,6 +260,10 @@ def run_case(c: Dict[str, Any]) -> Outcome:
             b.serializer = PickleSerializer()
         if c["codec"] == "jsonfmt":
             b.formatter = JSONFormatter()
+        r_early = None
+        if c.get("late_register") and not c.get("shadow"):
+            # the receiver exists before the task is registered (what InMemoryBroker does, and late / dynamic registration on a worker)
+            r_early = Receiver(b, executor=Inline(), validate_params=validate, max_async_tasks=5, run_startup=False)
         b.register_task(ns["task"], task_name="t")
         if c.get("shadow"):
             # a shared task registered under the SAME name with other annotations: the broker's own task wins
@@ -267,7 +272,7 @@ def run_case(c: Dict[str, Any]) -> Outcome:
 
             AsyncBroker.global_task_registry.pop("t", None)
             AsyncSharedBroker().register_task(ns["shadow_task"], task_name="t")
-        r = Receiver(b, executor=Inline(), validate_params=validate, max_async_tasks=5, run_startup=False)
+        r = r_early or Receiver(b, executor=Inline(), validate_params=validate, max_async_tasks=5, run_startup=False)
         k = AsyncKicker("t", b, {"lbl": 1, "s": "x"}).with_task_id("T")
         m = k._prepare_message(*args, **kwargs)
         back = b.formatter.loads(b.formatter.dumps(m).message)
@@ -327,7 +332,7 @@ def run_case(c: Dict[str, Any]) -> Outcome:
     unann_first = any(pos[i]["ann"] == "none" and not pos[i]["dep"] and any(q["ann"] not in ("none", "Any") for q in pos[i + 1:]) for i in range(len(pos)))
     out.classes = [c["codec"], "validate" if validate else "no_validate"] + [cl for cl, f in (
         ("unannotated_before_annotated", unann_first), ("all_positional", len(args) == len([p for p in pos + kwo if not p["dep"]])),
-        ("has_dependency_param", any(p["dep"] for p in params)), ("has_kwonly", bool(kwo)), ("library_internal_param_names", c.get("naming") == "internal"), ("omitted_default", any(names[id(p)] not in passed and not p["dep"] for p in pos + kwo)),
+        ("has_dependency_param", any(p["dep"] for p in params)), ("has_kwonly", bool(kwo)), ("library_internal_param_names", c.get("naming") == "internal"), ("task_registered_after_receiver", bool(c.get("late_register"))), ("omitted_default", any(names[id(p)] not in passed and not p["dep"] for p in pos + kwo)),
         ("model_or_dataclass_value", any(isinstance(mkval(p["val"]), (M, D)) for p in params)), ("observable_misbinding", observable), ("same_named_shared_task", bool(c.get("shadow")))) if f]
     out.trace = {"signature": f"def task({sig})", "args": short(args, 200), "kwargs": short(kwargs, 200)}
     return out
